@@ -67,6 +67,15 @@ def oracle(ck, extended):
         wc_, wr_ = pywt.Wavelet(nc), pywt.Wavelet(nr)
         rt.guard(ck, oracle_swt, ck, rng.choice([2, 6]), 2, (np.array(wc_.dec_lo), np.array(wc_.dec_hi), np.array(wr_.dec_lo), np.array(wr_.dec_hi)),
                  gen.float_tensor(ck.nprng, (1, 2, 16, 24)), tol=1e-9)
+    # images above every blocking / tiling threshold (gen.scale_shapes_2d; sides rounded up to a multiple of 2^J as pywt.swt2
+    # requires), several levels - the reach of the dilated filters grows with the level
+    wl = ['db2', 'bior2.4', 'sym5', 'db7', 'db4', 'haar']
+    for k, shp in enumerate(gen.scale_shapes_2d(ck.tier)):
+        J = 1 + k % 3
+        up = lambda n: ((n + 2 ** J - 1) // (2 ** J)) * (2 ** J)
+        w = pywt.Wavelet(wl[k % len(wl)]); w2 = pywt.Wavelet(wl[(k + 3) % len(wl)])
+        filt = (np.array(w.dec_lo), np.array(w.dec_hi)) if k % 2 else (np.array(w.dec_lo), np.array(w.dec_hi), np.array(w2.dec_lo), np.array(w2.dec_hi))
+        rt.guard(ck, oracle_swt, ck, [2, 6][k % 2], J, filt, gen.float_tensor(ck.nprng, (shp[0], shp[1], up(shp[2]), up(shp[3]))), tol=1e-9)
     for name in named_wavelets(rng, 25 if q else 106):
         w = pywt.Wavelet(name); J = rng.randint(1, 2 if q else 3)
         H = (2 ** J) * rng.randint(1, 6); W = (2 ** J) * rng.randint(1, 6)
